@@ -32,7 +32,7 @@ CHECKS.update({
  "C10": hist("C10", "At every BeginBlock the fees collected in the previous block must reach exactly its proposer (or the pos module account for an unknown proposer) and every queued award must be minted exactly once to its address, supply moving by the same sum, queue empty afterwards."),
  "C12": dict(engine="opseq", category="model_checking",
    technique="exhaustive enumeration of write histories x pruning options on the real rootmulti/IAVL stores against a map model, with reopen and LoadVersion of every version after every commit",
-   text="Every write history over N IAVL substores + a transient store, V versions, 7 pruning options (store names s1.. and names that are prefixes of each other): before every commit every retained version is read on a CopyStore and through CacheMultiStoreWithVersion while the writes are pending; after every commit the store is reopened on a copy of the database and every version 1..latest+1 is loaded; at the end failed loads on the live handle, one handle moved to every retained older version and back, a second handle catching up, a substore mounted for the first time followed by four commits, and a reopen under every other pruning option / lazily / with the options set after loading. Commit ids, hashes, full contents, pruning (error, never data) and transient emptiness are compared with a map model.",
+   text="Every write history over N IAVL substores + a transient store, V versions, 7 pruning options (store names s1.. and names that are prefixes of each other): before every commit every retained version is read on a CopyStore and through CacheMultiStoreWithVersion while the writes are pending; after every commit the store is reopened on a copy of the database and every version 1..latest+1 is loaded; at the end failed loads on the live handle, one handle moved to every retained older version and back, a second handle catching up, a substore mounted for the first time followed by four commits, and a reopen under every other pruning option / lazily / with the options set after loading; a further pass mounts every non-empty subset of the substores on its own database (kept open, restarted eagerly or lazily before every commit) and reopens copies of all databases at every version after every commit. Commit ids, hashes, full contents, pruning (error, never data) and transient emptiness are compared with a map model.",
    design_ref="DESIGN.md §3 C12", note="MemDB stands in for the on-disk database; bounded by N<=3, V<=4 and the 6-element per-store write alphabet."),
  "C13": dict(engine="crashdb", category="fault_enumeration",
    technique="exhaustive crash-point enumeration over the logged durable writes of every Commit, closed under commutation of substore order",
